@@ -148,6 +148,19 @@ def part_manager(chk, gens):
     scripts = gen.printed
     if len(scripts) < 2000:
         raise vlib.Inconclusive("too few manager scripts (%d)" % len(scripts))
+    # histories of one path validation (no VIEW: every distinct history, not one script per edge), maximal ones only
+    focus = vlib.tlc_generate(MODULE, "CidRrc.mgr.genfocus.%s.cfg" % chk.tier, timeout=900)
+    chk.add_tlc("mgr.genfocus", focus)
+    keyf = lambda g: json.dumps([(x.get("op"), x.get("a"), x.get("n"), x.get("ck"), x.get("en")) for x in g["steps"]])
+    allk = {keyf(g) for g in focus.printed}
+    prefixes = set()
+    for g in focus.printed:
+        st = g["steps"]
+        for n in range(1, len(st)):
+            prefixes.add(json.dumps([(x.get("op"), x.get("a"), x.get("n"), x.get("ck"), x.get("en")) for x in st[:n]]))
+    maximal = [g for g in focus.printed if keyf(g) not in prefixes]
+    chk.parts["mgr.focus"] = {"histories": len(allk), "maximal": len(maximal)}
+    scripts = scripts + maximal
     binary = vlib.build("rrc")
     rows, summary = replay_mgr(chk, binary, scripts)
     late = summary.get("late", 0)
